@@ -70,6 +70,7 @@ def handle : List String → Option String
           match parseFp fp with
           | none => "bad-req"
           | some f =>
+            if raw == "!" then "reject" else    -- the request line was refused before any middleware ran
             let sp := Fs.Canon.canonSegs (cpsNat raw)
             match enforced cfgPaths (Fs.Canon.render sp) f with
             | .d60 => "60"
